@@ -19,6 +19,7 @@ class Manual(Executor):
         self.prefix = prefix
         self.sync_script = sync_script   # optional: list of bool, True = run inline inside submit
         self.refuse = False
+        self.inline_hook = None
 
     def submit(self, fn, *a, **k):
         det.switch("deleg.submit")
@@ -42,6 +43,8 @@ class Manual(Executor):
                     f.set_exception(e)
                 else:
                     f.set_result(r)
+            if self.inline_hook is not None:
+                self.inline_hook(idx)
         return f
 
     def shutdown(self, wait=True, **kw):
